@@ -1,16 +1,19 @@
 (* C10 - how the compiler chooses to implement an expression is unobservable. Property theorems only (proofs in proofs/VMStepProofs.v, PoolProofs.v, OpsProofs.v): the fused variable-op-constant instructions are step-equivalent to the generic sequence for every machine state; fused selection keeps the source order of the operands; the constant pool is stable under additions. *)
+From NL.Model Require Import Pipeline.
 From NL.Model Require Import VM.
 From NL.Spec Require Import ArithSpec.
 From NL.Proofs Require OpsProofs PoolProofs VMStepProofs VMIndexProofs CompileCorrectI.
+From NL.Spec Require Import Sem Fragment Fragment2 Fragment2h Fragment3 Fragment4.
+From NL.Proofs Require CompileCorrectJ9 CompileCorrectJ10.
 Import VMStepProofs PoolProofs.
 Open Scope Z_scope.
 
 (* whichever side the literal stands on and whether the fused or the generic instruction is chosen, the machine applies the operator to (left, right) in SOURCE order: stated for all 11 fused operators and every value *)
-Theorem fused_unobservable : forall (orc : oracle) (l r : expr) (o : operator) (name : text) (v : Z) (o' : operator) (h : heap) (a : val) (m : string) (m' : opcode) (mf : string), fused_candidate l r o = Some (name, v, o') -> Fragment.lit_ok v = true -> Sem.method_of o = Some m -> assoc operator_eqb o' fused_table = Some m' -> assoc opcode_eqb m' fused_dispatch = Some mf -> Fragment.scalar a = true \/ (exists ip n : Z, a = VFun ip n) -> binop orc mf h a (VInt v) = (let (x, y) := match l with | EIdent _ => (a, VInt v) | _ => (VInt v, a) end in binop orc m h x y).
+Theorem fused_unobservable : forall (orc : oracle) (l r : expr) (o : operator) (name : text) (v : Z) (o' : operator) (h : heap) (a : val) (m : string) (m' : opcode) (mf : string), fused_candidate l r o = Some (name, v, o') -> lit_ok v = true -> method_of o = Some m -> assoc operator_eqb o' fused_table = Some m' -> assoc opcode_eqb m' fused_dispatch = Some mf -> scalar a = true \/ (exists ip n : Z, a = VFun ip n) -> binop orc mf h a (VInt v) = (let (x, y) := match l with | EIdent _ => (a, VInt v) | _ => (VInt v, a) end in binop orc m h x y).
 Proof. exact CompileCorrectI.fused_unobservable. Qed.
 
 (* whole programs with functions (where locals, hence fused instructions, occur): the compiled program computes what the source denotes - so global vs local, literal vs variable, left vs right are unobservable on fragment F3 *)
-Theorem compile_correct_F3 : forall (orc : oracle) (p : block), Fragment3.in_F3 p = true -> Fragment.ends_expr p = true -> forall bc : bytecode, compile p = Ok bc -> forall fuel : nat, (Fragment3.size3_b p <= fuel)%nat -> Sem.sem_program orc fuel p <> Sem.SemFuel -> (forall out : text, Sem.sem_program orc fuel p <> Sem.SemError EArgumentError out) -> (exists budget : nat, Fragment3.obs_eq3 (run_program orc bc budget) (Sem.sem_program orc fuel p)) \/ Fragment3.hits_excluded orc bc.
+Theorem compile_correct_F3 : forall (orc : oracle) (p : block), in_F3 p = true -> ends_expr p = true -> forall bc : bytecode, compile p = Ok bc -> forall fuel : nat, (size3_b p <= fuel)%nat -> sem_program orc fuel p <> SemFuel -> (forall out : text, sem_program orc fuel p <> SemError EArgumentError out) -> (exists budget : nat, obs_eq3 (run_program orc bc budget) (sem_program orc fuel p)) \/ hits_excluded orc bc.
 Proof. exact CompileCorrectI.compile_correct_F3. Qed.
 
 (* one fused instruction XLocalConst l c = the three generic instructions GetLocal l; Const c; X - same stack, heap, output, error, fault - for all eleven opcodes and EVERY machine state (constant not a string: the compiler fuses integer literals only) *)
@@ -61,6 +64,10 @@ Proof. exact PoolProofs.pool_nodup_preserved. Qed.
 Theorem const_string_copied : forall (orc : oracle) (prog : program) (s : vm) (lo hi : Z) (r : list Z) (l : positive) (t : text), VMStepProofs.code_at prog (v_ip s) (byte_of_opcode OConst :: lo :: hi :: r) -> get_const prog (lo + 256 * hi) = Ok (VStr l) -> get_str (v_heap s) l = Ok t -> let l' := next_loc (v_heap s) in let h' := snd (h_alloc (v_heap s) (OStr t)) in step orc prog s = Ok (Continue (upd_ip (push (VStr l') (upd_heap s h' (trace (v_gc s) (VStr l')))) (v_ip s + 3))) /\ get_str h' l' = Ok t /\ (VMIndexProofs.heap_wf (v_heap s) -> l' <> l).
 Proof. exact VMIndexProofs.const_string_copied. Qed.
 
+(* SOURCE level, WHOLE language outside the exclusions of DESIGN 4.3 (functions, heap values, builtins together, collector running): the compiled program computes exactly what the definitional semantics assigns to the tree - which decides this property for every such program of the model *)
+Theorem compile_correct_F4 : forall (orc : oracle) (p : block), in_F4 p = true -> ends_expr p = true -> lits_exact (lits_b p) -> forall bc : bytecode, compile p = Ok bc -> forall fuel : nat, (size3_b p <= fuel)%nat -> sem_program orc fuel p <> SemFuel -> sem_small orc fuel p (length (b_constants bc)) -> (exists budget : nat, obs_eq4 (run_program orc bc budget) (sem_program orc fuel p)) \/ hits_excluded4 (CompileCorrectJ5.fun_table p) orc bc.
+Proof. exact CompileCorrectJ9.compile_correct_F4. Qed.
+
 
 Print Assumptions fused_unobservable.
 Print Assumptions compile_correct_F3.
@@ -76,3 +83,4 @@ Print Assumptions pool_stable_exact.
 Print Assumptions pool_prefix.
 Print Assumptions pool_nodup_preserved.
 Print Assumptions const_string_copied.
+Print Assumptions compile_correct_F4.
